@@ -551,59 +551,68 @@ func c01OpClass(r *core.Run, p *core.Program, ev *ssa.Function) {
 // 0x06 mean ALL; taproot uses the two low bits (3) after having refused undefined values. A wrong mask
 // leaves every defined value (and so every test vector) unchanged and changes only the undefined ones.
 func c01HashTypeMasks(r *core.Run, p *core.Program) {
-	const rule = "R-C01-rules"
+	hashTypeClasses(r, p, func(string) string { return "R-C01-rules" })
+}
+
+// hashTypeClasses is shared by C01 (what a signature commits to decides the verdict) and C02 (the digests).
+func hashTypeClasses(r *core.Run, p *core.Program, ruleFor func(fn string) string) {
+	// Which hash types does a digest function tell apart?  For every value 0..255 of the hash-type byte the
+	// function's branches are followed with that value fixed (branches on anything else go both ways); two
+	// values that reach exactly the same blocks are treated alike by the function.  Consensus distinguishes
+	// the classes below; values of different classes must not be treated alike - however the tests are
+	// written (masks, ranges, switch) is not looked at.
+	classLegacy := func(h int64) string { // legacy and BIP143: ANYONECANPAY bit, output class from the low 5 bits
+		out := "all"
+		switch h & 0x1f {
+		case 2:
+			out = "none"
+		case 3:
+			out = "single"
+		}
+		return fmt.Sprintf("acp=%v/%s", h&0x80 != 0, out)
+	}
+	classTaproot := func(h int64) string {
+		if !(h <= 3 || (h >= 0x81 && h <= 0x83)) {
+			return "undefined"
+		}
+		return fmt.Sprintf("default=%v/acp=%v/out=%d", h == 0, h&0x80 != 0, map[int64]int64{0: 1, 1: 1, 2: 2, 3: 3}[h&3])
+	}
 	for _, x := range []struct {
 		fn    string
 		param int
-		want  string
+		class func(int64) string
 	}{
-		{"lib/btc.(*Tx).WitnessSigHash", 4, "128 31"},
-		{"lib/btc.(*Tx).SignatureHash", 3, "128 31"},
-		{"lib/btc.(*Tx).TaprootSigHash", 3, "128 3"},
+		{"lib/btc.(*Tx).WitnessSigHash", 4, classLegacy},
+		{"lib/btc.(*Tx).SignatureHash", 3, classLegacy},
+		{"lib/btc.(*Tx).TaprootSigHash", 3, classTaproot},
 	} {
 		fn := p.Func(x.fn)
+		rule := ruleFor(x.fn)
+		key := "hash-type-classes/" + x.fn
 		if fn == nil || len(fn.Params) <= x.param {
-			r.Fail(rule, "hash-type-masks/"+x.fn, "-", "function not found")
+			r.Fail(rule, key, "-", "function not found")
 			continue
 		}
 		ht := fn.Params[x.param]
-		masks := map[string]bool{}
-		var derived func(v ssa.Value, d int) bool
-		derived = func(v ssa.Value, d int) bool {
-			if v == ssa.Value(ht) {
-				return true
+		bySig := map[string]int64{}
+		bad := ""
+		for h := int64(0); h < 256 && bad == ""; h++ {
+			reach := an.PReach(fn.Blocks[0], an.PEnv{ht: constant.MakeInt64(h)}, nil)
+			var ids []int
+			for b := range reach {
+				ids = append(ids, b.Index)
 			}
-			if d > 4 {
-				return false
-			}
-			switch y := v.(type) {
-			case *ssa.Convert:
-				return derived(y.X, d+1)
-			case *ssa.ChangeType:
-				return derived(y.X, d+1)
-			}
-			return false
-		}
-		for _, f := range an.WithClosures(fn) {
-			an.Instrs(f, func(i ssa.Instruction) {
-				bo, ok := i.(*ssa.BinOp)
-				if !ok || (bo.Op != token.AND && bo.Op != token.AND_NOT) {
-					return
+			sort.Ints(ids)
+			sig := fmt.Sprint(ids)
+			if prev, seen := bySig[sig]; seen {
+				if x.class(prev) != x.class(h) {
+					bad = fmt.Sprintf("hash types 0x%02x (%s) and 0x%02x (%s) take the same branches: the function cannot hash them differently", prev, x.class(prev), h, x.class(h))
 				}
-				if k, isC := an.ConstOf(bo.Y); isC && derived(bo.X, 0) {
-					masks[k.String()] = true
-				} else if k, isC := an.ConstOf(bo.X); isC && derived(bo.Y, 0) {
-					masks[k.String()] = true
-				}
-			})
+			} else {
+				bySig[sig] = h
+			}
 		}
-		var ms []string
-		for m := range masks {
-			ms = append(ms, m)
-		}
-		sort.Strings(ms)
-		got := strings.Join(ms, " ")
-		r.Check(got == x.want, rule, "hash-type-masks/"+x.fn, p.Pos(fn.Pos()), "the hash-type byte is decoded with the masks "+x.want, "the hash-type byte is decoded with the masks ["+got+"], consensus uses ["+x.want+"]")
+		r.Check(bad == "", rule, key, p.Pos(fn.Pos()), fmt.Sprintf("256 hash-type values fall into %d branch patterns, none of which mixes two consensus classes", len(bySig)), bad)
 	}
 }
 
